@@ -208,10 +208,10 @@ def run23(ctx):
         else:
             cases += gen(ctx, "GEN_GraphQueries_4.cfg", n=4, maxhidden=4, **base)
             cases += gen(ctx, "GEN_GraphQueries_4up.cfg", n=4, maxhidden=2, k=13, i=ctx.seed % 13, **dict(base, provides=True, upper=True))
-            cases += gen(ctx, "GEN_GraphQueries_5s.cfg", n=5, maxhidden=2, k=97, i=ctx.seed % 97, **base)
+            cases += gen(ctx, "GEN_GraphQueries_5s.cfg", n=5, maxhidden=2, k=151, i=ctx.seed % 151, **base)
             # the wide search for the revdeps FIFO flaw: 5 targets, exactly one hidden, only the revdeps queries,
             # only the graphs where the model leaves its window are emitted (and replayed)
-            cases += gen(ctx, "GEN_GraphQueries_5rev.cfg", n=5, maxhidden=1, minhidden=1, focus="rev", k=11, i=ctx.seed % 11,
+            cases += gen(ctx, "GEN_GraphQueries_5rev.cfg", n=5, maxhidden=1, minhidden=1, focus="rev", k=17, i=ctx.seed % 17,
                          **dict(base, emit="diff"))
             # design level: TLC must refute "the models stay inside the window" (the recorded flaws); if it no longer
             # does, the spec's models have drifted from the recorded findings
